@@ -302,6 +302,16 @@ func Versions(name string, level int) G {
 	z := Lit("0", "1", "01", "010", "001", "0010", "00", "10", "100", "011", "11")
 	pre := Lit("1.", "1.0.", "v1.0.", "1.0-", "1.0_p", "1.0.0-rc.", "1.0-r", "1:1.", "1.0~", "1.0rc")
 	g = Alt(g, Seq(pre, z), Seq(Lit("1."), z, Lit("."), Lit("0", "1", "01", "010", "10")))
+	// long component chains (fixed-size arrays, match-count caps): 9, 10, 11, 12 and 17 components,
+	// the last one varied
+	for _, n := range []int{9, 10, 11, 12, 17} {
+		chain := "1"
+		for i := 1; i < n-1; i++ {
+			chain += ".1"
+		}
+		g = Alt(g, Seq(Lit(chain+"."), Lit("1", "2", "10", "0")))
+	}
+	g = Alt(g, Lit("1.2.3.4.rc1-beta.2", "1.2.3.4.rc1-beta.3", "1.2.3.4.rc1.beta.2", "1.2.3.4-rc.1.beta.2", "1.2.3.4-rc.1.beta.3"))
 	// one-slot substitution closure of the ecosystem's typical shapes (see SlotMutations)
 	g = Alt(g, SlotFamily(name))
 	return g
